@@ -5,6 +5,7 @@ seeded/results.json. Nothing is ever committed to /repo."""
 import json, os, subprocess, sys
 ROOT = os.path.dirname(os.path.dirname(os.path.abspath(__file__)))
 S = os.path.join(ROOT, "seeded")
+REPO = os.environ.get("WV_REPO", "/repo")
 
 def run(ids):
     resp = os.path.join(S, "results.json")
@@ -16,7 +17,7 @@ def run(ids):
         meta = json.load(open(os.path.join(d, "meta.json")))
         # a patch written against an older /repo HEAD may have been rebased over later hook commits
         pf = os.path.join(d, "patch.rebased.diff") if os.path.exists(os.path.join(d, "patch.rebased.diff")) else os.path.join(d, "patch.diff")
-        r = subprocess.run(["git", "-C", "/repo", "apply", pf], capture_output=True, text=True)
+        r = subprocess.run(["git", "-C", REPO, "apply", pf], capture_output=True, text=True)
         if r.returncode != 0:
             print(sid, "patch does not apply", r.stderr[:200]); continue
         try:
@@ -27,7 +28,7 @@ def run(ids):
                 results["%s:%s" % (sid, prop)] = {"exit": r.returncode, "violation_lines": len(v), "first": (v or [""])[0][:400], "model_drift": drift[:1]}
                 print(sid, prop, "exit", r.returncode, len(v), (v or [""])[0][:160], flush=True)
         finally:
-            subprocess.run(["git", "-C", "/repo", "checkout", "--", "."])
+            subprocess.run(["git", "-C", REPO, "checkout", "--", "."])
             json.dump(results, open(resp, "w"), indent=1)
 
 if __name__ == "__main__":
